@@ -61,6 +61,9 @@ def scenarios():
         out.append(("json-raw", {"limit": limit}, lambda limit=limit: JSONSerializer(use_lines=False, limit=limit),
                     [{"a": 1}, [1, 2], "s\\\"x", 5, {"k": "}{"}, [[], {}]]))
         out.append(("json-lines", {"limit": limit}, lambda limit=limit: JSONSerializer(use_lines=True, limit=limit), [{"a": 1}, [1, 2], "s", 5]))
+    # a stray closing bracket in front of a document is a malformed frame of its own (one parse error), not the start of a frame
+    out.append(("json-raw-stray-bracket", {"limit": 64}, lambda: JSONSerializer(use_lines=False, limit=64), [{"a": 1}, [1, 2], "s"]))
+    out.append(("json-raw-stray-brace", {"limit": 64}, lambda: JSONSerializer(use_lines=False, limit=64), [[1, 2], {"a": 1}, 5]))
     # debug mode builds error_info from the decoder's exception: every kind of decoder failure must survive that (C06)
     out.append(("json-lines-debug", {"limit": 8192}, lambda: JSONSerializer(use_lines=True, limit=8192, debug=True), [{"a": 1}, [1, 2]]))
     out.append(("json-raw-debug", {"limit": 8192}, lambda: JSONSerializer(use_lines=False, limit=8192, debug=True), [{"a": 1}, [1, 2]]))
@@ -80,7 +83,8 @@ def scenarios():
     return out
 
 
-BAD_FRAMES = {"json-lines-debug": b"1" * 5000 + b"\n", "json-raw-debug": b"[" + b"1" * 5000 + b"]",  # int literal beyond the str->int digit limit: plain ValueError
+BAD_FRAMES = {"json-raw-stray-bracket": b"]", "json-raw-stray-brace": b"}",
+              "json-lines-debug": b"1" * 5000 + b"\n", "json-raw-debug": b"[" + b"1" * 5000 + b"]",  # int literal beyond the str->int digit limit: plain ValueError
               "pickle": b"NN\x85R.",  # REDUCE applied to None: the unpickler raises TypeError
               "filebased": b"\x02!!", "json-lines": b"{nope\n", "line-crlf": b"\xff\xfe\r\n", "base64": b"QUJD\r\n",
               "line-idna": b"xn--a\n", "line-utf16": b"\x00\xd8x\n", "json-raw": b"{nope}", "struct-strings": b"\xff\xfe\xfd\xfc\xfb\xfa\x00\x01abc"}
